@@ -228,8 +228,9 @@ Proof.
   destruct (Nat.ltb_spec (hwm s) r) as [Hhi|Hlo].
   - (* a new, higher retry level *)
     assert (Hr : r <= mx) by (destruct m; simpl in *; unfold r; simpl; lia).
-    assert ((mx <? r) = false) as -> by (apply Nat.ltb_ge; lia).
-    destruct (mark_pre mx s m rest I2 Eq Hhi) as (b & Ec & T & Nm & R & A0 & _). rewrite Ec.
+    destruct (mark_pre mx s m rest I2 Eq Hhi) as (b & Ec & T & Nm & R & A0 & _).
+    rewrite (ensure_bp_some s lk b Ec). cbn [negb]. cbv iota.
+    assert ((mx <? r) = false) as -> by (apply Nat.ltb_ge; lia). rewrite Ec.
     destruct m as [i r0|c|]; [|exfalso; specialize (Fin_le c eq_refl); unfold r in Hhi; simpl in Hhi; lia|congruence].
     change (retries_of (Data i r0)) with r0 in *. subst r.
     set (t := mark s b r0).
